@@ -14,4 +14,16 @@ TEXT = {
         "level_note": "Assumes: floats are mathematical reals; z3/cvc5 and the pyvc VC generator are correct; the LP-level consequence (called alleles only use filtered evidence) rests on the C02/C04 builder contracts.",
         "design_ref": "DESIGN.md 5/C15",
     },
+    "C07": {
+        "category": "proof",
+        "level_text": "All obligations of the depth-normalisation code (Coverage._normalize_coverage with its two summarised loops, diploid_avg_coverage, average_coverage, total) are discharged for all depth tables, profiles and region layouts: every region value equals (profile neutral depth / sample neutral depth) * region depth / (profile region depth / 2), is 0.0 where the profile has no depth, exactly the gene's regions are keys, and the call raises iff the sample's (or the profile's) neutral depth is zero. The statement's scaling laws (k-fold depth invariance, linearity in gene reads, 2.0 for the profile's own sample) are algebraic consequences of that identity. A bounded native run of the same contracts on the real code (CPython) accompanies every run.",
+        "level_note": "Assumes floats are mathematical reals; the profile/neutral-region walks in profile.py and sam.py (pysam input) are not yet under contract; defaultdict(int) zero-insertion on read is outside the VC model (covered by the native frame clause).",
+        "design_ref": "DESIGN.md 5/C07",
+    },
+    "C18": {
+        "category": "proof",
+        "level_text": "Profile.update is verified against a contract written from the statement for every parameter of the profile class and every dynamic type of value (None, bool, int, float, str): booleans become True for true (any case)/1/True and False for false/0/False, anything else raises; ints and floats are converted or rejected when a string does not parse; not-given parameters keep their value; the returned dictionary lists exactly the parameters that were set. The loop over the keyword dictionary is summarised by the foreach rule (one symbolic entry, unique-writer side conditions discharged). The unfixed original code is refuted by the same contract (see known_findings.json: fixed F1).",
+        "level_note": "str.lower, int(str), float(str) are uninterpreted (parses_int/parses_float); the options merge in Profile.load and --param parsing in __main__ are not yet under contract; yaml is trusted.",
+        "design_ref": "DESIGN.md 5/C18",
+    },
 }
